@@ -396,8 +396,102 @@ fn content_types() -> BoxedStrategy<String> {
 fn values() -> BoxedStrategy<String> {
     prop_oneof![4 => "[ -~]{0,16}", 1 => Just(String::new()), 1 => "\\PC{1,8}"].boxed()
 }
+/// JSON texts from a grammar (strings with raw non-ASCII, escapes, surrogate pairs and lone
+/// surrogates; numbers of every shape; nesting; repeated keys; optional white space), most of them
+/// objects that fit or nearly fit the typed expectation
+fn json_texts() -> BoxedStrategy<String> {
+    let string = prop_oneof![
+        4 => "[ !#-\\[\\]-~]{0,8}",
+        2 => "[a-zé€😀]{1,5}",
+        1 => Just("\\u00e9\\n\\\"".to_string()),
+        1 => Just("\\ud83d\\ude00".to_string()),
+        1 => Just("\\ud800".to_string()),
+        1 => Just("\\x".to_string()),
+    ]
+    .prop_map(|s| format!("\"{s}\""));
+    let number = prop_oneof![
+        3 => any::<i16>().prop_map(|n| n.to_string()),
+        1 => any::<u32>().prop_map(|n| n.to_string()),
+        1 => any::<i64>().prop_map(|n| n.to_string()),
+        1 => Just("1.5".to_string()),
+        1 => Just("1e3".to_string()),
+        1 => Just("-0".to_string()),
+        1 => Just("01".to_string()),
+        1 => Just("18446744073709551616".to_string()),
+        1 => Just("1e400".to_string()),
+    ];
+    let leaf = prop_oneof![1 => Just("null".to_string()), 1 => Just("true".to_string()), 3 => number.clone(), 3 => string.clone()];
+    let value = leaf.prop_recursive(3, 12, 4, {
+        let string = string.clone();
+        move |inner| {
+            prop_oneof![
+                prop::collection::vec(inner.clone(), 0..4).prop_map(|v| format!("[{}]", v.join(","))),
+                prop::collection::vec((string.clone(), inner), 0..4).prop_map(|v| format!("{{{}}}", v.into_iter().map(|(k, v)| format!("{k}: {v}")).collect::<Vec<_>>().join(" ,"))),
+            ]
+        }
+    });
+    let typed = (
+        prop_oneof![4 => any::<u32>().prop_map(|n| n.to_string()), 1 => number.clone()],
+        proptest::option::of(prop_oneof![4 => string.clone(), 1 => Just("null".to_string())]),
+        prop::collection::vec(prop_oneof![6 => any::<i16>().prop_map(|n| n.to_string()), 1 => number], 0..4),
+        any::<u8>(),
+    )
+        .prop_map(|(a, b, c, order)| {
+            let mut fields = vec![format!("\"a\":{a}"), format!("\"c\":[{}]", c.join(","))];
+            if let Some(b) = b {
+                fields.push(format!("\"b\":{b}"));
+            }
+            if order % 5 == 4 {
+                fields.push(fields[0].clone()); // a repeated key
+            }
+            let k = order as usize % fields.len();
+            fields.rotate_left(k);
+            format!("{{{}}}", fields.join(if order & 64 == 0 { "," } else { " ,\n" }))
+        });
+    prop_oneof![2 => value, 3 => typed].boxed()
+}
+
+/// ... and the same with one byte replaced (a non-UTF-8 byte inside a string literal is what a
+/// lossy decoder would silently turn into U+FFFD), cut short, or followed by more
+fn json_bodies() -> BoxedStrategy<Vec<u8>> {
+    (json_texts(), 0u8..14, any::<u16>(), proptest::sample::select(vec![0xe9u8, 0x80, 0xc3, 0xff, 0x00, b'"', b'\\', b'}', b' ']))
+        .prop_map(|(t, how, at, byte)| {
+            let mut b = t.into_bytes();
+            if !b.is_empty() {
+                let i = at as usize % b.len();
+                match how {
+                    12 | 13 => {
+                        // one plain character inside a string literal becomes a byte that is not UTF-8 there
+                        let (mut inside, mut esc, mut cands) = (false, false, vec![]);
+                        for (k, c) in b.iter().enumerate() {
+                            match (inside, esc, *c) {
+                                (true, true, _) => esc = false,
+                                (true, false, b'\\') => esc = true,
+                                (true, false, b'"') => inside = false,
+                                (true, false, c) if c.is_ascii() => cands.push(k),
+                                (false, _, b'"') => inside = true,
+                                _ => {}
+                            }
+                        }
+                        if !cands.is_empty() {
+                            b[cands[at as usize % cands.len()]] = [0xe9u8, 0x80, 0xc3, 0xff][how as usize % 2 * 2 + (at as usize / 97) % 2];
+                        }
+                    }
+                    0..=2 => b[i] = byte,
+                    3 => b.insert(i, byte),
+                    4 => b.truncate(i),
+                    5 => b.extend_from_slice(b" x"),
+                    _ => {}
+                }
+            }
+            b
+        })
+        .boxed()
+}
+
 fn bodies() -> BoxedStrategy<Vec<u8>> {
     prop_oneof![
+        8 => json_bodies(),
         2 => Just(vec![]),
         3 => "[ -~]{1,20}".prop_map(|s| s.into_bytes()),
         2 => "\\PC{1,12}".prop_map(|s| s.into_bytes()),
@@ -415,7 +509,7 @@ fn bodies() -> BoxedStrategy<Vec<u8>> {
     .boxed()
 }
 fn statuses() -> BoxedStrategy<u16> {
-    prop_oneof![6 => proptest::sample::select(KNOWN_STATUS.to_vec()), 2 => 100u16..600, 1 => 0u16..100, 1 => 600u16..=u16::MAX, 1 => proptest::sample::select(vec![0u16, 99, 102, 208, 299, 305, 306, 399, 419, 499, 509, 599, 600, 999, 65535])].boxed()
+    prop_oneof![6 => proptest::sample::select(KNOWN_STATUS.to_vec()), 5 => proptest::sample::select(vec![200u16, 201, 204, 206, 301, 304]), 2 => 100u16..600, 1 => 0u16..100, 1 => 600u16..=u16::MAX, 1 => proptest::sample::select(vec![0u16, 99, 102, 208, 299, 305, 306, 399, 419, 499, 509, 599, 600, 999, 65535])].boxed()
 }
 
 pub fn strategy() -> BoxedStrategy<Case> {
@@ -476,6 +570,27 @@ pub fn main(mode: Mode) {
                 Reply::Response { status, .. } if *status >= 400 && *status < 600 => "status:4xx-5xx",
                 Reply::Response { .. } => "status:1xx-3xx",
                 _ => "shell-error",
+            },
+            match (&c.expect, &c.reply) {
+                (Expect::Json, Reply::Response { status, body, .. }) if KNOWN_STATUS.contains(status) && *status < 400 => {
+                    if serde_json::from_slice::<serde_json::Value>(body).is_ok() {
+                        "json-expectation:body-is-valid-json"
+                    } else if String::from_utf8_lossy(body).parse::<serde_json::Value>().is_ok() {
+                        "json-expectation:body-is-json-but-for-a-non-utf8-byte"
+                    } else {
+                        "json-expectation:body-is-not-json"
+                    }
+                }
+                (Expect::Typed, Reply::Response { status, body, .. }) if KNOWN_STATUS.contains(status) && *status < 400 => {
+                    if serde_json::from_slice::<TypedJ>(body).is_ok() {
+                        "typed-expectation:body-fits"
+                    } else if serde_json::from_str::<TypedJ>(&String::from_utf8_lossy(body)).is_ok() {
+                        "typed-expectation:body-fits-but-for-a-non-utf8-byte"
+                    } else {
+                        "typed-expectation:body-does-not-fit"
+                    }
+                }
+                _ => "json-expectation:n/a",
             },
         ];
         match judge(c) {
